@@ -22,6 +22,8 @@ import NV.C07.Spec
 import NV.C07.WF
 import NV.C07.Build
 import NV.C07.LemmasBuild
+import NV.C07.Compress
+import NV.C07.Binary
 
 namespace NV.C07
 
@@ -99,6 +101,7 @@ def parseDump (lines : List String) : Dump :=
       match parseTbl line with
       | some r => { d with raws := r :: d.raws, lines := line :: d.lines }
       | none => { d with bad := line :: d.bad }
+    | "cmp" :: _ => { d with lines := line :: d.lines }
     | ["obj", oid, p] => { d with objs := (oid, p) :: d.objs, lines := line :: d.lines }
     | ["ld", oid, "!fail"] => { d with failed := oid :: d.failed }
     | _ => d) {}
@@ -113,6 +116,13 @@ def Dump.world (d : Dump) : World :=
 
 def Dump.key (d : Dump) (n : String) : Option Nat := (d.names.find? (·.1 == n)).map (·.2)
 
+/-- the dumped lines of a trace, split at the `reload ...` lines: after a reload every program is loaded anew (other
+    name pointers, other program ids), so each epoch has its own tables -/
+def splitEpochs (lines : List String) : List (List String) :=
+  let (cur, done) := lines.foldl (fun (acc : List String × List (List String)) l =>
+    if l.startsWith "reload " then ([], acc.1.reverse :: acc.2) else (l :: acc.1, acc.2)) ([], [])
+  (cur.reverse :: done).reverse
+
 /-! ### parsing the case -/
 
 def parseMods (s : String) : Spec.Mods :=
@@ -123,8 +133,11 @@ def parseMods (s : String) : Spec.Mods :=
 def parseACalls (s : String) : List Spec.ACall :=
   (splitOnC s "+").filterMap fun t =>
     let body := (t.drop 1).toString
-    if t.startsWith "L" then some (.loc body)
-    else if t.startsWith "F" then some (.fp body)
+    -- L local call; F `evaluate((: f :))`; G the same pointer handed to ANOTHER object that evaluates it
+    -- (call_function_pointer switches back to the owner); H / I `(: f() :)`: a functional whose body makes the
+    -- local call, evaluated here / by the other object (the functional carries the creator's index offsets)
+    if t.startsWith "L" || t.startsWith "H" || t.startsWith "I" then some (.loc body)
+    else if t.startsWith "F" || t.startsWith "G" then some (.fp body)
     else if t.startsWith "S" then
       match body.splitOn "." with
       | ["*", f] => some (.sup none f)
@@ -141,9 +154,9 @@ def parseProg (ts : List String) : Option Spec.AProg :=
       | ["i", m, par] => { P with inherits := P.inherits ++ [{ mods := parseMods m, parent := par }] }
       | ["p", m, f] =>
         if P.fns.any (·.name == f) then P
-        else { P with fns := P.fns ++ [{ name := f, mods := parseMods m, isDef := false, calls := [] }] }
+        else { P with fns := P.fns ++ [{ name := f, mods := parseMods m, isDef := false, calls := [], nargs := Spec.arityOf f }] }
       | ["d", m, f, cs] =>
-        { P with fns := P.fns.filter (·.name != f) ++ [{ name := f, mods := parseMods m, isDef := true, calls := parseACalls cs }] }
+        { P with fns := P.fns.filter (·.name != f) ++ [{ name := f, mods := parseMods m, isDef := true, calls := parseACalls cs, nargs := Spec.arityOf f }] }
       | ["v", _] => { P with hasW := true }
       | _ => P) P)
   | _ => none
@@ -151,12 +164,14 @@ def parseProg (ts : List String) : Option Spec.AProg :=
 inductive Cmd where
   | ld (oid prog : String)
   | dump
-  | call (o : Origin) (oid fn : String)
+  | call (o : Origin) (oid fn : String) (args : List Int := [])
   | callT (isArray : Bool) (ts : List Target) (fn : String)
   | cold
   | evict (oid fn : String)
+  | reload
 
 structure Parsed where
+  savebin : Bool := false
   graph : Spec.AGraph := []
   srcs : List (String × List String) := []      -- program name, its items in source order
   cmds : List Cmd := []
@@ -189,7 +204,13 @@ def parseCase (lines : List String) : Parsed :=
       match parseOrigin o with
       | some o => { p with cmds := .call o oid fn :: p.cmds }
       | none => { p with bad := line :: p.bad }
+    | ["call", o, oid, fn, args] =>
+      match parseOrigin o, (args.splitOn ",").mapM String.toInt? with
+      | some o, some as => { p with cmds := .call o oid fn as :: p.cmds }
+      | _, _ => { p with bad := line :: p.bad }
     | ["cold"] => { p with cmds := .cold :: p.cmds }
+    | ["savebin"] => { p with savebin := true }
+    | "reload" :: _ => { p with cmds := .reload :: p.cmds }
     | ["evict", oid, fn] => { p with cmds := .evict oid fn :: p.cmds }
     | _ => if line.startsWith "#" then p else { p with bad := line :: p.bad }) {}
   { p with cmds := p.cmds.reverse }
@@ -234,26 +255,39 @@ def buildWorld (p : Parsed) (d : Dump) : World :=
     let name' := if aliasOrdered st.slots then name else name ++ "!alias-not-ordered"
     { progs := w.progs ++ [{ finish name id st (d.key "heart_beat") with name := name' }] }) { progs := [] }
 
+/-- the per-epoch environment of the model run -/
+structure MEnv where
+  d : Dump
+  w : World
+  rest : List Dump          -- the dumps of the epochs to come
+  epoch : Nat := 0
+
 def runModel (body : List String) : List String :=
   let (input, dumped) := splitJudge body
   let p := parseCase input
-  let d := parseDump dumped
+  let ds := (splitEpochs dumped).map parseDump
+  let bad := ds.foldl (fun acc d => acc ++ d.bad) []
   if !p.bad.isEmpty then p.bad.map (fun l => s!"bad-line {l}")
-  else if !d.bad.isEmpty then d.bad.map (fun l => s!"bad-dump {l}")
+  else if !bad.isEmpty then bad.map (fun l => s!"bad-dump {l}")
   else
     -- the tables are BUILT by the model of the compiler; from the implementation's dump only the name-pointer
     -- ranks, the program ids and the list of dumped programs / objects are taken
-    let w := buildWorld p d
-    let fresh := (d.names.foldl (fun m x => max m x.2) 0) + 1000
-    let createKey := (d.key "create").getD (fresh + 7)
-    let progOf (n : String) : Option Nat := w.progs.findIdx? (·.name == n)
-    let s := p.cmds.foldl (fun (s : St) c =>
+    let d0 := ds.headD {}
+    let env0 : MEnv := { d := d0, w := buildWorld p d0, rest := ds.drop 1 }
+    let (_, s) := p.cmds.foldl (fun (es : MEnv × St) c =>
+      let (env, s) := es
+      let d := env.d
+      let w := env.w
+      let fresh := (d.names.foldl (fun m x => max m x.2) 0) + 1000
+      let createKey := (d.key "create").getD (fresh + 7)
+      let progOf (n : String) : Option Nat := w.progs.findIdx? (·.name == n)
       match c with
       | .ld oid pn =>
-        if d.failed.contains oid then { s with out := Ev.line s!"ld {oid} !fail" :: s.out }
-        else match progOf pn with
-          | some pi => { loadObj w createKey (w.progs.length + 1) { s with callOrigin := 0 } pi with labels := (oid, pi) :: s.labels }
-          | none => { s with out := Ev.line s!"bad-prog {pn}" :: s.out }
+        (env,
+         if d.failed.contains oid then { s with out := Ev.line s!"ld {oid} !fail" :: s.out }
+         else match progOf pn with
+          | some pi => { loadObj w createKey (w.progs.length + 1) { s with callOrigin := 0 } pi with labels := (oid, pi) :: s.labels.filter (·.1 != oid) }
+          | none => { s with out := Ev.line s!"bad-prog {pn}" :: s.out })
       | .dump =>
         let lines := d.lines.map fun l =>
           match toks l with
@@ -264,22 +298,56 @@ def runModel (body : List String) : List String :=
               -- the dumped line
               renderTbl w { P with id := ((parseTbl l).map (·.id)).getD P.id }
             | none => s!"tbl {name} not-in-case"
+          | "cmp" :: name :: _ =>
+            -- the COMPRESSED table is computed by the model of compress_function_tables from the model-built table;
+            -- the decidable hypothesis of `find_func_entry_compress` is evaluated on it (a violation is made visible in
+            -- the compared line), and so is the round trip itself
+            match w.progs.find? (·.name == name) with
+            | some P =>
+              let t := RTab.ofProgram P
+              let c := compress t
+              let wf := if t.cmpWF then "" else "!cmpwf"
+              let rtOk := match c with
+                | some c => decompress P.inherit c P.rt.length == P.rt.map some
+                | none => false
+              renderCmp (name ++ wf ++ (if rtOk then "" else "!roundtrip")) c
+            | none => s!"cmp {name} not-in-case"
           | _ => l
-        { s with out := (lines.map Ev.line).reverse ++ s.out }
-      | .call o oid fn =>
-        if o == .hb then doHeartBeat w s oid fn else
-        match d.key fn with
-        | some k => doCall w s o oid fn k
-        | none => { s with out := Ev.line s!"bad-name {fn}" :: s.out }
+        -- programs that came from saved binaries since the start of the case / the last reload: before a reload nothing
+        -- is saved yet; after it every program file loaded so far (one object per file) comes from its binary
+        let nbin := if p.savebin && env.epoch > 0 then s.objs.length else 0
+        (env, { s with out := Ev.line s!"binloads {nbin}" :: ((lines.map Ev.line).reverse ++ s.out) })
+      | .call o oid fn args =>
+        (env,
+         if o == .hb then doHeartBeat w s oid fn else
+         match d.key fn with
+         | some k => doCall w s o oid fn k args
+         | none => { s with out := Ev.line s!"bad-name {fn}" :: s.out })
       | .callT isArray ts fn =>
-        match d.key fn with
-        | some k => doCallTargets w createKey progOf s isArray ts fn k
-        | none => { s with out := Ev.line s!"bad-name {fn}" :: s.out }
-      | .cold => { s with cache := Cache.empty }
+        (env,
+         match d.key fn with
+         | some k => doCallTargets w createKey progOf s isArray ts fn k
+         | none => { s with out := Ev.line s!"bad-name {fn}" :: s.out })
+      | .cold => (env, { s with cache := Cache.empty })
       | .evict oid fn =>
-        match d.key fn with
-        | some k => doEvict w s oid fn k (fresh + k)
-        | none => { s with out := Ev.line s!"bad-name {fn}" :: s.out }) {}
+        (env,
+         match d.key fn with
+         | some k => doEvict w s oid fn k (fresh + k)
+         | none => { s with out := Ev.line s!"bad-name {fn}" :: s.out })
+      | .reload =>
+        -- everything is freed and loaded anew: the name strings live at other addresses (the ranks of the next dump);
+        -- a freshly compiled program and a program re-sorted by sort_function_table must be the same table
+        let d' := env.rest.headD {}
+        let w' := buildWorld p d'
+        let key' (n : String) : Nat := (d'.key n).getD (900000 + n.length * 131 + NV.C07.digitsOf n)
+        let mism := (w.progs.zip w'.progs).filterMap fun (P, P') =>
+          let R := resortProgram P key'
+          if R.ft.map (fun e => (e.name, e.rindex, e.nameStr, e.ops)) == P'.ft.map (fun e => (e.name, e.rindex, e.nameStr, e.ops))
+             && R.rt == P'.rt && R.flags == P'.flags then none
+          else some (Ev.line s!"resort-mismatch {P.name}")
+        ({ d := d', w := w', rest := env.rest.drop 1, epoch := env.epoch + 1 },
+         { cache := Cache.empty, callOrigin := 0, objs := [], labels := [], out := mism ++ (Ev.line "reload done" :: s.out) }))
+      (env0, ({} : St))
     s.out.reverse.map Ev.render
 
 /-! ### judge mode -/
@@ -291,6 +359,7 @@ def parseEv (line : String) : Option Spec.Ev :=
     match tag.splitOn ":", old.toInt? with
     | [f, n], some v => some (.run f n v)
     | _, _ => none
+  | "args" :: vs => (vs.mapM String.toInt?).map .args
   | "err" :: _ => some .err
   | ["ret", v] => some (.ret v)
   | "vars" :: oid :: vs => (vs.mapM String.toInt?).map (.vars oid)
@@ -312,6 +381,7 @@ def compareEvs (exp obs : List Spec.Ev) : List String :=
           | .run .., .ret "!no" => "call-lost"        -- an allowed call did not run
           | .run .., .ret "swept" => "call-lost"
           | .vars .., .vars .. => "variables"
+          | .args .., .args .. => "arguments"         -- the callee found other values in its parameters
           | _, _ => "dispatch"
         [s!"{kind} at={i} expected=({e.show}) got=({o.show})"]
   go 0 exp obs
@@ -383,16 +453,21 @@ def runJudge (body : List String) : List String :=
       | .ld oid pn =>
         let pi := g.indexOf pn
         { Spec.specLoad g (g.length + 1) st pi with labels := (oid, pi) :: st.labels }
-      | .call o oid fn => Spec.specCall g st o.str oid fn
+      | .call o oid fn args => Spec.specCall g st o.str oid fn args
       | .callT isArray ts fn => Spec.specCallTargets g st isArray (ts.map toST) fn
+      | .reload => { st with objs := [], labels := [] }     -- every object is gone; variables start from 0 again
       | _ => st) {}
     let expRev := st.evs
     let obs := impl.filterMap parseEv
     let v1 := compareEvs expRev.reverse obs
-    let w := d.world
-    let v2 := if d.raws.isEmpty then [] else (wfReport w).map (fun s => s!"wf {s}")
-    let v3 := abstractionCheck g d ++ slotsAgainstSpec g d
-    match v1 ++ v2 ++ v3 with
+    -- the table checks are made on the tables of every epoch (before / after each reload)
+    let v23 := ((splitEpochs impl).map parseDump).foldl (fun acc d =>
+      let w := d.world
+      let v2 := if d.raws.isEmpty then [] else (wfReport w).map (fun s => s!"wf {s}")
+      acc ++ v2 ++ abstractionCheck g d ++ slotsAgainstSpec g d) []
+    -- a case that saves binaries must really load them after a reload (otherwise the comparison would say nothing
+    -- about load_binary): `binloads 0` after a reload with objects loaded is a harness failure
+    match v1 ++ v23 with
     | [] => ["ok"]
     | vs => vs.map (fun v => s!"bad {v}")
 
